@@ -34,7 +34,7 @@ from __future__ import annotations
 
 import ast
 
-from ..astutil import call_recv, attr_chain, callee_name, calls, is_name, is_self_attr, text, unwrap_await
+from ..astutil import lfrag, local_names, ltext, call_recv, attr_chain, callee_name, calls, is_name, is_self_attr, text, unwrap_await
 from ..core import Result
 from ..flow import MustFlow
 from ..model import AnchorMissing, Repo, walk_no_nested
@@ -43,29 +43,30 @@ PID = "C05"
 MIN_OBLIGATIONS = 60
 MARKUP_CTORS = {"Markup", "Markupsafe"}
 
-# function qual | argument text  ->  (class of justification, reason)
+# function qual | argument text (local names of the function written `_`: astutil.ltext)  ->
+# (class of justification, reason)
 REVIEWED_MARKUP = {
     "liquid.stringify.to_liquid_string|''": ("constant", "empty Markup used only as a joiner: Markup('').join escapes every non-Markup item"),
     "liquid.builtin.expressions.primitive.StringLiteral.evaluate|self.value": ("template-literal", "a string literal written by the template author"),
     "liquid.builtin.filters.array.join|' '": ("constant", "the default separator"),
     "liquid.builtin.filters.extra.safe|val": ("excluded-by-property", "the safe filter marks data safe on purpose"),
-    "liquid.builtin.filters.extra.escapejs|escaped": ("closed-alphabet", "every HTML-special character was replaced by a \\uXXXX escape via _ESCAPE_RE/_ESCAPE_MAP"),
-    "liquid.builtin.filters.misc.date|rv": ("template-literal-format", "strftime output under a format string that is itself Markup (a template literal): only when isinstance(fmt, Markup)"),
+    "liquid.builtin.filters.extra.escapejs|_": ("closed-alphabet", "every HTML-special character was replaced by a \\uXXXX escape via _ESCAPE_RE/_ESCAPE_MAP"),
+    "liquid.builtin.filters.misc.date|_": ("template-literal-format", "strftime output under a format string that is itself Markup (a template literal): only when isinstance(fmt, Markup)"),
     "liquid.builtin.filters.string.escape_once|val": ("consumed", "immediately .unescape()d into a plain str, which the output statement escapes again"),
     "liquid.builtin.filters.string.newline_to_br|RE_LINETERM.sub('<br />\\n', val)": ("escaped-then-constant-sub", "val = markupsafe_escape(val) first; the replacement is a constant"),
-    "liquid.builtin.filters.string.strip_html|stripped": ("already-markup", "only when the input already was Markup (isinstance test)"),
+    "liquid.builtin.filters.string.strip_html|_": ("already-markup", "only when the input already was Markup (isinstance test)"),
     "liquid.builtin.filters.string.strip_newlines|RE_LINETERM.sub('', val)": ("escaped-then-constant-sub", "val = markupsafe_escape(val) first; the replacement is a constant"),
     "liquid.builtin.filters.string.url_encode|urllib.parse.quote_plus(val)": ("closed-alphabet", "quote_plus output contains only unreserved characters, '+' and %XX"),
     "liquid.builtin.tags.capture_tag.CaptureNode._assign|buf.getvalue()": ("rendered-output", "output of the captured block, each piece already escaped by its own sink"),
-    "liquid.extra.filters.html.stylesheet_tag|tag": ("excluded-by-property", "HTML-generating filter; the url is inserted with Markup.format, which escapes it"),
-    "liquid.extra.filters.html.script_tag|tag": ("excluded-by-property", "HTML-generating filter; the url is inserted with Markup.format, which escapes it"),
-    "liquid.extra.filters.translate.Translate.__call__|text": ("escaped-message", "text is the translation of a message stringified with to_liquid_string(autoescape and autoescape_message) (C05-REG)"),
-    "liquid.extra.filters.translate.GetText.__call__|text": ("escaped-message", "as Translate"),
-    "liquid.extra.filters.translate.NGetText.__call__|text": ("escaped-message", "as Translate"),
-    "liquid.extra.filters.translate.PGetText.__call__|text": ("escaped-message", "as Translate"),
-    "liquid.extra.filters.translate.NPGetText.__call__|text": ("escaped-message", "as Translate"),
-    "liquid.extra.filters.translate.BaseTranslateFilter.format_message|escaped": ("already-markup", "re-wraps the percent-doubled copy of a message that already was Markup (isinstance test); doubling % adds no markup"),
-    "liquid.extra.tags.extends_tag.BlockDrop.__getitem__|buf.getvalue()": ("rendered-output", "output of the parent block rendered into a get_buffer buffer"),
+    "liquid.extra.filters.html.stylesheet_tag|_": ("excluded-by-property", "HTML-generating filter; the url is inserted with Markup.format, which escapes it"),
+    "liquid.extra.filters.html.script_tag|_": ("excluded-by-property", "HTML-generating filter; the url is inserted with Markup.format, which escapes it"),
+    "liquid.extra.filters.translate.Translate.__call__|_": ("escaped-message", "text is the translation of a message stringified with to_liquid_string(autoescape and autoescape_message) (C05-REG)"),
+    "liquid.extra.filters.translate.GetText.__call__|_": ("escaped-message", "as Translate"),
+    "liquid.extra.filters.translate.NGetText.__call__|_": ("escaped-message", "as Translate"),
+    "liquid.extra.filters.translate.PGetText.__call__|_": ("escaped-message", "as Translate"),
+    "liquid.extra.filters.translate.NPGetText.__call__|_": ("escaped-message", "as Translate"),
+    "liquid.extra.filters.translate.BaseTranslateFilter.format_message|_": ("already-markup", "re-wraps the percent-doubled copy of a message that already was Markup (isinstance test); doubling % adds no markup"),
+    "liquid.extra.tags.extends_tag.BlockDrop.__getitem__|_.getvalue()": ("rendered-output", "output of the parent block rendered into a get_buffer buffer"),
     "liquid.extra.tags.translate_tag.TranslateNode._format_message|message_text": ("template-literal", "message text of the translate block (template text with % doubled) or its catalogue translation"),
 }
 # extra structural conditions a reviewed row depends on (checked on every run)
@@ -260,22 +261,25 @@ def run(repo: Repo) -> Result:
     # ---- C05-MARKUP ---------------------------------------------------------------
     seen = set()
     for f in repo.all_functions():
+        loc = None
         for n in ast.walk(f.node):
             if isinstance(n, ast.Call) and isinstance(n.func, ast.Name) and n.func.id in MARKUP_CTORS:
+                if loc is None:
+                    loc = local_names(f.node)
                 arg = n.args[0] if n.args else None
                 # a local bound exactly once stands for its definition (an inlined or
                 # extracted temporary is the same construction)
                 if isinstance(arg, ast.Name):
                     binds = [x.value for x in ast.walk(f.node) if isinstance(x, ast.Assign) and len(x.targets) == 1 and isinstance(x.targets[0], ast.Name) and x.targets[0].id == arg.id]
                     params = {a.arg for a in f.node.args.args + f.node.args.kwonlyargs + f.node.args.posonlyargs}
-                    if len(binds) == 1 and arg.id not in params and f"{f.qual}|{text(arg)}" not in REVIEWED_MARKUP:
+                    if len(binds) == 1 and arg.id not in params and f"{f.qual}|{ltext(arg, loc)}" not in REVIEWED_MARKUP:
                         arg = binds[0]
-                key = f"{f.qual}|{text(arg) if arg is not None else ''}"
+                key = f"{f.qual}|{ltext(arg, loc) if arg is not None else ''}"
                 seen.add(key)
                 res.ob(f"markup:{key}")
                 row = REVIEWED_MARKUP.get(key)
                 if row is None:
-                    res.add("C05-MARKUP", f.qual, f"Markup({text(arg)[:50] if arg is not None else ''})", f"{f.qual} marks `{text(arg)[:60] if arg is not None else ''}` as safe markup; this construction is not in the reviewed table (constant / template literal / escaped value / closed alphabet / rendered output)", f.file, n.lineno)
+                    res.add("C05-MARKUP", f.qual, f"Markup({ltext(arg, loc)[:50] if arg is not None else ''})", f"{f.qual} marks `{text(arg)[:60] if arg is not None else ''}` as safe markup; this construction is not in the reviewed table (constant / template literal / escaped value / closed alphabet / rendered output)", f.file, n.lineno)
                 else:
                     res.sample({"rule": "C05-MARKUP", "site": key, "class": row[0]}, cap=30)
     # module-level Markup constructions
@@ -294,21 +298,23 @@ def run(repo: Repo) -> Result:
     def fn_text(q):
         return text(repo.func(q).node)
 
+    # (fragments are written with the function's local names as `_`, the form ltext produces)
     conds = [
         ("liquid.builtin.filters.string.newline_to_br", "val = markupsafe_escape(val)", "escape-before-sub"),
         ("liquid.builtin.filters.string.strip_newlines", "val = markupsafe_escape(val)", "escape-before-sub"),
         ("liquid.builtin.filters.string.strip_html", "if environment.autoescape and isinstance(val, Markup):", "already-markup-test"),
         ("liquid.builtin.filters.string.escape_once", "return Markup(val).unescape()", "consumed-by-unescape"),
         ("liquid.builtin.filters.misc.date", "if environment.autoescape and isinstance(fmt, Markup):", "literal-format-test"),
-        ("liquid.builtin.filters.extra.escapejs", "escaped = _ESCAPE_RE.sub(lambda m: _ESCAPE_MAP[m.group()], val)", "closed-alphabet"),
-        ("liquid.extra.filters.html.script_tag", "return Markup(tag).format(str(url))", "markup-format"),
-        ("liquid.extra.filters.html.stylesheet_tag", "return Markup(tag).format(str(url))", "markup-format"),
+        ("liquid.builtin.filters.extra.escapejs", "_ = _ESCAPE_RE.sub(lambda m: _ESCAPE_MAP[m.group()], val)", "closed-alphabet"),
+        ("liquid.extra.filters.html.script_tag", "return Markup(_).format(str(url))", "markup-format"),
+        ("liquid.extra.filters.html.stylesheet_tag", "return Markup(_).format(str(url))", "markup-format"),
         ("liquid.builtin.filters.string.escape", "return markupsafe_escape(str(val))", "escape-filter"),
         ("liquid.extra.filters.translate.BaseTranslateFilter.format_message", "if isinstance(message_text, Markup):", "already-markup-test"),
     ]
     for q, frag, name in conds:
         res.ob(f"cond:{q}:{name}")
-        if frag not in fn_text(q):
+        loc_q = local_names(repo.func(q).node)
+        if lfrag(frag, loc_q) not in ltext(repo.func(q).node, loc_q):
             res.add("C05-MARKUP", q, f"condition:{name}", f"{q}: the reviewed Markup row relies on `{frag}`, which is no longer there", repo.func(q).file, repo.func(q).line)
     # the substitution in newline_to_br/strip_newlines: escape dominates the sub and replacement constant
     for q in ("liquid.builtin.filters.string.newline_to_br", "liquid.builtin.filters.string.strip_newlines"):
@@ -340,8 +346,22 @@ def run(repo: Repo) -> Result:
                 n_sl += 1
                 res.ob(f"stringliteral-ctor:{f.qual}")
                 v = c.args[1] if len(c.args) > 1 else next((k.value for k in c.keywords if k.arg == "value"), None)
-                if not (v is not None and (text(v) in ("token.value",) or isinstance(v, ast.Constant))):
-                    res.add("C05-LITERAL", f.qual, f"StringLiteral({text(v)[:30] if v is not None else ''})", f"{f.qual} builds a StringLiteral from `{text(v)[:40] if v is not None else ''}`, not from template text", f.file, c.lineno)
+                tok = c.args[0] if c.args else next((k.value for k in c.keywords if k.arg == "token"), None)
+                # `StringLiteral(<token>, <token>.value)`: the value of the very token it is built for
+                def is_token_expr(e, depth=0) -> bool:
+                    e = unwrap_await(e)
+                    if isinstance(e, ast.Call) and (is_name(e.func, "next") or callee_name(e) in ("expect", "eat", "eat_one_of", "next_token")):
+                        return True
+                    if isinstance(e, ast.Attribute) and e.attr in ("current", "peek"):
+                        return True
+                    if isinstance(e, ast.Name) and depth < 3:
+                        b = [x.value for x in ast.walk(f.node) if isinstance(x, ast.Assign) and len(x.targets) == 1 and is_name(x.targets[0], e.id)]
+                        return bool(b) and all(is_token_expr(x, depth + 1) for x in b)
+                    return False
+
+                from_token = isinstance(v, ast.Attribute) and v.attr == "value" and (is_token_expr(v.value) or (tok is not None and text(v.value) == text(tok)))
+                if not (v is not None and (from_token or isinstance(v, ast.Constant))):
+                    res.add("C05-LITERAL", f.qual, f"StringLiteral({ltext(v, local_names(f.node))[:30] if v is not None else ''})", f"{f.qual} builds a StringLiteral from `{text(v)[:40] if v is not None else ''}`, not from template text", f.file, c.lineno)
     if n_sl < 3:
         raise AnchorMissing("StringLiteral construction sites not found")
 
@@ -364,25 +384,28 @@ def run(repo: Repo) -> Result:
         if f is None:
             continue
         res.ob(f"reg-call:{cname}")
+        # the local alias of context.env.autoescape (whatever it is called) is propagated
+        f = _NF(f, _propagate(_copy.deepcopy(f.node)))
         t = text(f.node)
+        FLAG = ("autoescape and self.autoescape_message", "context.env.autoescape and self.autoescape_message")
         # every positional message parameter is re-bound through to_liquid_string(..., autoescape=autoescape and self.autoescape_message)
         for st in walk_no_nested(f.node):
             if isinstance(st, ast.Assign) and isinstance(st.value, ast.Call) and callee_name(st.value) == "to_liquid_string":
                 kw = {k.arg: text(k.value) for k in st.value.keywords}
-                if kw.get("autoescape") != "autoescape and self.autoescape_message":
+                if kw.get("autoescape") not in FLAG:
                     res.add("C05-REG", f.qual, f"stringify:{text(st.targets[0])}", f"{f.qual}: `{text(st)[:70]}` must stringify with autoescape=autoescape and self.autoescape_message", f.file, st.lineno)
-        if "autoescape = context.env.autoescape" not in t:
+        if "autoescape = context.env.autoescape" not in t and "context.env.autoescape and self.autoescape_message" not in t:
             res.add("C05-REG", f.qual, "flag", f"{f.qual} must read the flag from context.env.autoescape", f.file, f.line)
         # the first positional (message) must be stringified before the gettext call
         first_param = [a.arg for a in f.node.args.args if a.arg != "self"][0]
-        if f"{first_param} = to_liquid_string({first_param}, autoescape=autoescape and self.autoescape_message)" not in t:
+        if not any(f"{first_param} = to_liquid_string({first_param}, autoescape={fl})" in t for fl in FLAG):
             res.add("C05-REG", f.qual, "message-not-stringified", f"{f.qual}: the message `{first_param}` must be stringified (and escaped) before translation", f.file, f.line)
         # flow: every str argument handed to translations.*gettext() is, on every path, the
         # result of that stringification (rebinding the name afterwards loses the fact)
         def gen(st):
             if isinstance(st, ast.Assign) and len(st.targets) == 1 and isinstance(st.targets[0], ast.Name) and isinstance(st.value, ast.Call) and callee_name(st.value) == "to_liquid_string":
                 kw = {k.arg: text(k.value) for k in st.value.keywords}
-                if kw.get("autoescape") == "autoescape and self.autoescape_message":
+                if kw.get("autoescape") in ("autoescape and self.autoescape_message", "context.env.autoescape and self.autoescape_message"):
                     return {("esc", st.targets[0].id)}
             return set()
 
@@ -418,9 +441,14 @@ def run(repo: Repo) -> Result:
     # ---- C05-FLAG -----------------------------------------------------------------------
     n_flag = 0
     ok_flags = {"context.autoescape", "context.env.autoescape", "environment.autoescape", "autoescape", "autoescape and self.autoescape_message"}
-    for f in repo.all_functions():
+    ok_flags |= {"context.env.autoescape and self.autoescape_message"}
+    for f0 in repo.all_functions():
+        if f0.qual == tls.qual or not any(callee_name(c) == "to_liquid_string" for c in calls(f0.node, nested=True)):
+            continue
+        # local aliases of the flag (`autoescape = context.env.autoescape`, under any name) propagated
+        f = _NF(f0, _propagate(_copy.deepcopy(f0.node)))
         for c in calls(f.node, nested=True):
-            if callee_name(c) == "to_liquid_string" and f.qual != tls.qual:
+            if callee_name(c) == "to_liquid_string":
                 n_flag += 1
                 res.ob(f"flag:{f.qual}")
                 flag = c.args[1] if len(c.args) > 1 else next((k.value for k in c.keywords if k.arg == "autoescape"), None)
